@@ -70,6 +70,19 @@ class C16(Monitor):
             fb = fp_state(b, ids=False)
             if fa != fb:
                 ctx.violate("C16", "stepping-twice-differs", f"stepping the state saved after step {ctx.k} twice gave two different results", diff=diff_states(a, b, ids=False))
+            if ctx.k % (self.twice_every * 4) == 0:
+                # replays of several steps: whatever is drawn while stepping (the random instance tags of new activities,
+                # for one) must not decide anything that shows later
+                L = 4 + self.rnd.randrange(6)
+                ends = []
+                for _ in range(2):
+                    x, sx = S, su
+                    for _j in range(L):
+                        x, sx = sx.update(x, env)
+                    ends.append(x)
+                ctx.count("c16_replays_of_several_steps")
+                if fp_state(ends[0], ids=False) != fp_state(ends[1], ids=False):
+                    ctx.violate("C16", "replaying-several-steps-twice-differs", f"replaying {L} steps from the state saved after step {ctx.k} twice gave two different results", diff=diff_states(ends[0], ends[1], ids=False))
             self.stepped.append((ctx.k, S, su, fa))
             if len(self.stepped) > 10:
                 self.stepped.pop(self.rnd.randrange(len(self.stepped)))
